@@ -452,11 +452,16 @@ func finish(t *rapid.T, s *Spec, dupNoVariants bool) *Spec {
 			s.Primary = s.Exchanges[0].URL
 		}
 		if rapid.IntRange(0, 2).Draw(t, "manifest") == 0 {
-			s.Manifest = rapid.SampledFrom([]string{"https://a.example/manifest.json", "https://b.example/m?x=1"}).Draw(t, "manifesturl")
+			s.Manifest = rapid.SampledFrom([]string{"https://a.example/manifest.json", "https://b.example/m?x=1",
+				// spellings that a URL "clean-up" would change: dot segments, empty path, default port, upper-case host, escapes, empty query
+				// (fragments, credentials and relative forms are refused by the reader for these two URLs, as the format demands, and are not generated)
+				"https://a.example/app/../manifest.webmanifest", "https://a.example/./m.json", "https://a.example/a/./b/../c", "https://a.example", "https://a.example:443/m",
+				"https://A.EXAMPLE/m", "https://a.example/%7Em%2Fx", "https://a.example/m?"}).Draw(t, "manifesturl")
 		}
 	} else {
 		if rapid.Bool().Draw(t, "primary") {
-			s.Primary = rapid.SampledFrom([]string{"https://a.example/", "https://a.example/index.html?q=1", "https://c.example:8443/x%20y"}).Draw(t, "primaryurl")
+			s.Primary = rapid.SampledFrom([]string{"https://a.example/", "https://a.example/index.html?q=1", "https://c.example:8443/x%20y",
+				"https://a.example/app/../index.html", "https://a.example/./", "https://a.example", "https://a.example:443/", "https://A.EXAMPLE/p", "https://a.example/p?"}).Draw(t, "primaryurl")
 		}
 		if rapid.IntRange(0, 24).Draw(t, "badmanifest") == 0 {
 			s.Manifest = "https://a.example/manifest.json"
